@@ -168,3 +168,50 @@ package nasType
 //@   loop 0 invariant buflen(rfc1035Reader) >= 0
 //@   loop 0 decreases buflen(rfc1035Reader)
 //@ end
+
+// ---- C15: QoS rules and QoS flow descriptions (TS 24.501 9.11.4.13, 9.11.4.12) ----
+// Totality: every parser consumes from a well-formed *bytes.Buffer and never panics; list loops terminate because
+// each iteration consumes at least one octet (variant: octets left) or counts up to a number read from one octet.
+//@ define BufOK(b) := (b != nil && buflen(b) >= 0)
+
+//@ func (p *PacketFilterComponentList) UnmarshalBinary(b) (err)
+//@   loop 0 invariant BufOK(buf)
+//@   loop 0 decreases buflen(buf)
+//@ end
+
+//@ func parsePacketFilterList(buf, n) (l, err)
+//@   requires BufOK(buf) && 0 <= n && n <= 15
+//@   loop 0 invariant BufOK(buf) && 0 <= i && i <= n && buflen(buf) <= old(buflen(buf))
+//@   loop 0 decreases n - i
+//@   ensures buflen(buf) >= 0 && buflen(buf) <= old(buflen(buf))
+//@ end
+
+//@ func parsePacketFilterDeleteList(buf, n) (l, err)
+//@   requires BufOK(buf) && 0 <= n && n <= 15
+//@   loop 0 invariant BufOK(buf) && 0 <= i && i <= n && buflen(buf) <= old(buflen(buf))
+//@   loop 0 decreases n - i
+//@   ensures buflen(buf) >= 0 && buflen(buf) <= old(buflen(buf))
+//@ end
+
+//@ func (q *QoSRules) UnmarshalBinary(b) (err)
+//@   loop 0 invariant BufOK(buf)
+//@   loop 0 decreases buflen(buf)
+//@ end
+
+//@ func parseQoSFlowParameterList(buf, number) (l, err)
+//@   requires BufOK(buf)
+//@   loop 0 invariant BufOK(buf) && 0 <= i && i <= int(number) && buflen(buf) <= old(buflen(buf))
+//@   loop 0 decreases int(number) - i
+//@   ensures buflen(buf) >= 0 && buflen(buf) <= old(buflen(buf))
+//@ end
+
+//@ func parseQoSFlowDesc(buf) (d, err)
+//@   requires BufOK(buf)
+//@   ensures buflen(buf) >= 0 && buflen(buf) <= old(buflen(buf))
+//@   ensures implies(err == nil, d != nil && buflen(buf) <= old(buflen(buf)) - 3)
+//@ end
+
+//@ func (q *QoSFlowDescs) UnmarshalBinary(b) (err)
+//@   loop 0 invariant BufOK(buf)
+//@   loop 0 decreases buflen(buf)
+//@ end
